@@ -864,6 +864,19 @@ func (c *FnCtx) loopSpec(s ast.Stmt) *LoopSpec {
 	if ls, ok := c.spec.Loops[n]; ok {
 		return ls
 	}
+	// a loop the contract says nothing about is cut with the trivial invariant: everything it assigns is unknown behind
+	// it. Sound, but what fails behind it for lack of an invariant is a limit of the contract, not of the code
+	pos := c.eng.Fset.Position(s.Pos())
+	note := fmt.Sprintf("loop at line %d has no invariant in the contract", pos.Line)
+	seen := false
+	for _, x := range c.bareLoops {
+		if x == note {
+			seen = true
+		}
+	}
+	if !seen {
+		c.bareLoops = append(c.bareLoops, note)
+	}
 	return &LoopSpec{N: n}
 }
 
